@@ -139,6 +139,8 @@ impl Ex<'_> {
     /// value of a scalar-like parameter: None = unset
     fn value(&self, n: &Name) -> Option<String> {
         match n {
+            // IFS is an ordinary variable whose value the state keeps apart
+            Name::Var("IFS") => self.st.ifs.clone(),
             Name::Var(v) => self.st.vars.get(*v).cloned(),
             Name::Pos(i) => self.st.pos.get(*i - 1).cloned(),
             Name::Hash => Some(self.st.pos.len().to_string()),
@@ -312,7 +314,13 @@ impl Ex<'_> {
                                     _ => None,
                                 })
                                 .collect();
-                            self.st.vars.insert(v.to_string(), s.clone());
+                            if *v == "IFS" {
+                                // field splitting happens after all expansions of the word (XCU 2.6):
+                                // it uses the value assigned here
+                                self.st.ifs = Some(s.clone());
+                            } else {
+                                self.st.vars.insert(v.to_string(), s.clone());
+                            }
                             // "the final value of parameter shall be substituted"
                             self.push_value(&s, dq, out);
                         } else {
